@@ -189,7 +189,27 @@ def run(report, p):
         s0 = (sorts + sorteds)[0]
         key = next((k.value for k in s0.keywords if k.arg == "key"), None)
         rev = next((k.value for k in s0.keywords if k.arg == "reverse"), None)
-        ok = isinstance(key, ast.Lambda) and norm(key.body).endswith(".generation_number") and (rev is None or p.fold(rev, loader) is False)
+        def _by_generation(k):
+            if isinstance(k, ast.Lambda):
+                return norm(k.body).endswith(".generation_number") and len(k.args.args) == 1 and norm(k.body) == f"{k.args.args[0].arg}.generation_number"
+            if isinstance(k, (ast.Name, ast.Attribute)):
+                # a named key function: def f(x): return x.generation_number
+                for q in p.resolve_name_targets(k, loader) if hasattr(p, "resolve_name_targets") else []:
+                    pass
+                nm = k.id if isinstance(k, ast.Name) else k.attr
+                cands = [f2 for f2 in p.funcs.values() if f2.name == nm and f2.module is loader.module]
+                if len(cands) == 1:
+                    f2 = cands[0]
+                    rets = [n for n in walk_no_nested(f2.node) if isinstance(n, ast.Return)]
+                    ps = [x for x in f2.params if x not in ("self", "cls")]
+                    return len(rets) == 1 and len(ps) == 1 and norm(rets[0].value) == f"{ps[0]}.generation_number"
+                if norm(k) in ("operator.attrgetter('generation_number')", "attrgetter('generation_number')"):
+                    return True
+            if isinstance(k, ast.Call) and norm(k.func).endswith("attrgetter") and len(k.args) == 1 and isinstance(k.args[0], ast.Constant) and k.args[0].value == "generation_number":
+                return True
+            return False
+
+        ok = _by_generation(key) and (rev is None or p.fold(rev, loader) is False)
         for a in apps:
             lp = parent(parent(a))
             if sorts:
